@@ -139,7 +139,8 @@ def collect(ck, n):
         out += rr["results"]
     crashed = [r for r in out if "crash" in r]
     if crashed:
-        ck.broke("impl-runner-crash", {"svcs": crashed[0]["svcs"], "prog": crashed[0]["prog"], "crash": crashed[0]["crash"]})
+        c0 = crashed[0]
+        ck.runner_crash({k: c0.get(k) for k in ("backend", "svcs", "prog", "nested", "choices")}, c0["crash"])
     return [r for r in out if "crash" not in r]
 
 
@@ -256,6 +257,9 @@ def replay(ck: Check, obj) -> int:
     if rp.get("gates"):
         case["gates"] = rp["gates"]
     r = ck.run_impl("impl_svc.py", [{"cases": [case]}])[0]["results"][0]
+    if "crash" in r and "steps" not in r:
+        print(r["crash"])
+        return 1
     if any(sv.get("crash") or sv.get("crash_on_cancel") for sv in rp["svcs"]):
         # a fixed scenario: a service task raises; the exception must come out of the root context
         def has_crash(o):
